@@ -102,9 +102,9 @@ def run(ctx):
     if ctx.tier == 'quick':
         sel = [i for i in range(len(cells)) if i % 18 == (ctx.seed % 18)]
     else:
-        sel = list(range(len(cells)))
+        sel = list(range(len(cells))) + [len(cells) + i for i in range(2 * len(cells))]
     for cid, rng in ctx.cases([('file', i) for i in sel]):
-        cell = cells[cid[1]]
+        cell = cells[cid[1] % len(cells)]
         spec = layouts.make_spec(rng, cell, max_n=6, max_d=4)
         if len(spec['events']) == 0 and rng.random() < 0.7:
             spec = layouts.make_spec(rng, cell, max_n=6, max_d=4, n=int(rng.integers(1, 6)))
